@@ -86,7 +86,7 @@ package patch
 //@   assume stream_is_linear: forall p int, q int :: streams(originData, p) && streams(originData, q) && 0 <= p && p < q && p < len(originData) ==> p + ins_on(originData, p).Len <= q
 //@   assume displacements_are_small: forall p int :: 0 <= p && p < len(originData) ==> bytecode.fits32(bytecode.sdisp(originData, p + ins_on(originData, p).PCRelOff, ins_on(originData, p).PCRel))
 //@   assigns nothing
-//@   invariant loop 1 scanned_prefix_is_clean: 0 <= pos && pos <= len(originData) && streams(originData, pos) && arr(originData) != textref
+//@   invariant[C03,slow] loop 1 scanned_prefix_is_clean: 0 <= pos && pos <= len(originData) && streams(originData, pos) && arr(originData) != textref
 //@     | && forall q int :: streams(originData, q) && 0 <= q && q < pos ==> !points_into_prefix(originData, q, to)
 //@   ensures no_branch_back_into_overwritten_prefix: result == nil ==> forall q int :: streams(originData, q) && 0 <= q && q <= funcSize && q < len(originData) ==> !points_into_prefix(originData, q, to)
 //@   panics_only_if decoder_error: true
